@@ -233,8 +233,12 @@ impl Harness {
     pub fn open(&mut self) -> Result<(), String> {
         self.gate.adopt_dir(&self.dir);
         self.gate.clear_writers();
+        let starts = self.gate.syncer_starts();
         match crate::util::catch(|| self.cfg.builder().open(&self.dir)) {
             Ok(Ok(db)) => {
+                if self.cfg.timer_enabled() {
+                    self.gate.wait_syncer_started(starts);
+                }
                 self.db = Some(db);
                 self.next_tick = self.gate.now() + self.cfg.sync_idle_us * 1000;
                 Ok(())
@@ -246,6 +250,7 @@ impl Harness {
 
     /// Clean shutdown: every writer syncs, threads exit, handles are dropped.
     pub fn close(&mut self) {
+        self.gate.stop_syncer();
         self.gate.set_mode(Mode::Free);
         self.gate.release_flush_jobs();
         if let Some(db) = self.db.take() {
@@ -283,6 +288,18 @@ impl Harness {
     /// One simulated syncer tick: advances the clock to the deadline the syncer thread would
     /// sleep until and sends FlushPoll to every writer thread.
     pub fn tick(&mut self) {
+        if self.gate.real_syncer_active() {
+            // the store's own syncer thread does the work; the channel occupancy tells what it sent
+            if self.gate.syncer_tick() {
+                let n = self.db().verif_num_writer_threads();
+                for t in 0..n {
+                    let len = self.db().verif_writer_queue_len(t) as i64;
+                    self.gate.set_writer_queue(t as u64, len);
+                }
+                self.ticks += 1;
+                return;
+            }
+        }
         let now = self.gate.now();
         if self.next_tick > now {
             self.gate.advance(self.next_tick - now);
@@ -716,8 +733,12 @@ impl Harness {
         let saved_tick = self.next_tick;
         let saved_clock = (self.gate.mono.load(std::sync::atomic::Ordering::SeqCst), self.gate.wall.load(std::sync::atomic::Ordering::SeqCst));
         let saved_ticks = self.ticks;
+        let starts = self.gate.syncer_starts();
         let res = match crate::util::catch(|| self.cfg.builder().open(img)) {
             Ok(Ok(db)) => {
+                if self.cfg.timer_enabled() {
+                    self.gate.wait_syncer_started(starts);
+                }
                 self.db = Some(db);
                 let r = f(self);
                 if let Some(db) = self.db.take() {
